@@ -977,7 +977,10 @@ func (t *FnTrans) callMods(c *ssa.CallCommon, li *loopInfo) {
 			return
 		}
 		li.modAll = true
-		li.ghostAll = true
+		for _, g := range t.W.ghostWrites(callee, map[*ssa.Function]bool{}) {
+			li.mods["G."+g] = true
+			li.mods["GA."+g] = true
+		}
 		return
 	}
 	li.modAll = true
@@ -1201,6 +1204,10 @@ func (t *FnTrans) Translate() {
 		for _, c := range t.con.Requires {
 			env := t.entryEnv(entry)
 			t.assumps = append(t.assumps, Assump{Guard: "true", F: Formula{Clause: c, Env: env}, Why: "requires"})
+		}
+		for _, c := range t.con.GhostInit {
+			env := t.entryEnv(entry)
+			t.assumps = append(t.assumps, Assump{Guard: "true", F: Formula{Clause: c, Env: env}, Why: "initial value of the function's own ghost instrumentation"})
 		}
 	}
 	// vacuity canary after preconditions
@@ -1681,6 +1688,28 @@ func (t *FnTrans) modifiesComps(callee *ssa.Function, con *Contract) ([]string, 
 		}
 		return nil
 	}
+	// pathType: type of a parameter or of a dotted field path rooted at one
+	pathType := func(path string) types.Type {
+		parts := strings.Split(path, ".")
+		cur := paramType(parts[0])
+		for pi := 1; pi < len(parts) && cur != nil; pi++ {
+			sty := cur
+			if ptr, ok := cur.Underlying().(*types.Pointer); ok {
+				sty = ptr.Elem()
+			}
+			st, ok := sty.Underlying().(*types.Struct)
+			if !ok {
+				return nil
+			}
+			cur = nil
+			for i := 0; i < st.NumFields(); i++ {
+				if st.Field(i).Name() == parts[pi] {
+					cur = st.Field(i).Type()
+				}
+			}
+		}
+		return cur
+	}
 	var res []string
 	for _, item := range con.Modifies {
 		item = strings.TrimSpace(item)
@@ -1718,13 +1747,19 @@ func (t *FnTrans) modifiesComps(callee *ssa.Function, con *Contract) ([]string, 
 			}
 			res = append(res, "G."+item[i+1:j])
 		case strings.HasPrefix(item, "contents(") && strings.HasSuffix(item, ")"):
-			pt := paramType(strings.TrimSpace(item[len("contents(") : len(item)-1]))
+			pt := pathType(strings.TrimSpace(item[len("contents(") : len(item)-1]))
 			if pt == nil {
 				return nil, false
 			}
 			switch u := pt.Underlying().(type) {
 			case *types.Slice:
-				res = append(res, "B."+t.sortKey(u.Elem()))
+				cds := t.flatComps(u.Elem())
+				if cds == nil {
+					return nil, false
+				}
+				for _, cd := range cds {
+					res = append(res, "B."+t.sortKey(u.Elem())+cd.suffix)
+				}
 			default:
 				return nil, false
 			}
